@@ -166,10 +166,27 @@ def run(shard, rec, tier, seed):
         rec.sample({"random_input": x, "encoded": mon.apply(mon.enc, x)})
         # the same strings again in shuffled order, encode / decode interleaved (hidden per-string state)
         pool = [bytes(rng.choice(ALPHA + [rng.randrange(256)]) for _ in range(rng.randrange(1, 12))) for _ in range(300)]
+        held = []
+        hpool = [bytes(rng.choice(ALPHA + [rng.randrange(0x20, 0x80)]) for _ in range(rng.randrange(1, 12))) for _ in range(120)]
         for _ in range(shard["n"] // 4):
             mon.check(rng.choice(pool))
             cnt += 1
             rec.evals += 1
+            x = rng.choice(hpool)  # strings that only ever live in long-lived buffers
+            # buffers that stay alive and keep being transformed in place (what a reader / writer does):
+            # whatever the functions remember about a buffer must not leak into a later call
+            b = bytearray(x)
+            mon.enc(b)
+            if bytes(b) != ref.encode(x):
+                rec.violation("table", "encode_string(%s) = %s on a repeated call, reference %s" % (x.hex(), bytes(b).hex(), ref.encode(x).hex()), {"input": x})
+            held.append((b, x))
+            if len(held) > 40:
+                hb, hx = held.pop(rng.randrange(len(held)))
+                mon.dec(hb)
+                want = ref.decode(ref.encode(hx))
+                if bytes(hb) != want:
+                    rec.violation("self-inverse", "decode_string on a buffer encoded earlier gives %s, expected %s" % (bytes(hb).hex(), want.hex()), {"input": hx})
+            rec.count("held-buffer-steps")
     rec.count("self-inverse", 2 * cnt)
     rec.count("table", 2 * cnt)
     rec.count("break-safe", 4 * cnt)
